@@ -376,6 +376,10 @@ func raceify(sc *Scenario, r *common.Rng) *Scenario {
 		if r.Chance(1, 2) {
 			sc.Bars[i].App = append(sc.Bars[i].App, DecSpec{Kind: r.PickS("avgeta", "avgspeed")})
 		}
+		if r.Chance(1, 2) {
+			// byte-unit formatters of several bars run at the same time, each in its bar's goroutine
+			sc.Bars[i].Pre = append(sc.Bars[i].Pre, DecSpec{Kind: r.PickS("kib", "kb", "speedkib", "pct", "counters")})
+		}
 	}
 	for ci := range sc.Clients {
 		var ops []Op
